@@ -97,6 +97,21 @@ def run_cfg(chk, cfg, mode, drv_lines, keep, all_faults=True):
             if bad:
                 chk.fail("resumed run equals the uninterrupted run", case, "; ".join(bad[:6]),
                          {"clause": "equal", "route": route, "from": "checkpoint", "fields": sorted({b.split(":")[0].split("[")[0].split(".")[0] for b in bad})})
+                continue
+            # the same source used a second time (a resumed run that is itself interrupted before its next checkpoint is
+            # resumed from the very same bytes / dictionary / file again)
+            if route == "dict" or j % 3 == 0:
+                chk.count("resume_same_source_twice")
+                r3 = smcrun.resume_smc(cfg, src, record_checkpoints=True)
+                case3 = dict(case, second_resume_from_same_source=True)
+                if r3["status"] != "done":
+                    chk.fail("resumed run completes", case3, repr(r3.get("exc")), {"clause": "raise", "route": route})
+                    continue
+                bad = diff(R, snapshot(r3))
+                if bad:
+                    chk.fail("resumed run equals the uninterrupted run", case3, "; ".join(bad[:6]),
+                             {"clause": "equal", "route": route, "from": "checkpoint-second-use",
+                              "fields": sorted({b.split(":")[0].split("[")[0].split(".")[0] for b in bad})})
         # (b) every interruption point between two checkpoints
         for j, k in enumerate(ks):
             r1 = smcrun.run_smc(cfg, fault_at=k, record_checkpoints=True)
